@@ -44,7 +44,7 @@ def install_hook():
 
 def segments(outside_abs: str):
     return ['', '.', '..', 'k', 'a', 'new', ' ', '~', 'link_out', 'link_in', 'dangling', 'dangling_in',
-            'file_link', outside_abs, 'nul\0x', 'f', '.gitignore', 'K']
+            'file_link', outside_abs, 'nul\0x', 'f', '.gitignore', 'K', 'link_prefix', 'link_prefix_dir']
 
 
 def strings(nseg: int, outside_abs: str):
@@ -71,6 +71,10 @@ def build_sandbox(root: Path, layout: str):
     (outside / 'sub').mkdir()
     (outside / 'sub' / 'canary2').write_text('C2')
     (root / 'canary_top').write_text('TOP')
+    # sibling directories whose path has the storage path as a string prefix
+    for sib in ('storage_backup', 'real_storage2'):
+        (root / sib / 'K2').mkdir(parents=True)
+        (root / sib / 'K2' / 'f').write_text('SIB')
     if layout == 'via-symlink':
         real = root / 'real_storage'
         real.mkdir()
@@ -95,6 +99,9 @@ def build_sandbox(root: Path, layout: str):
         os.symlink('../../outside/secret', st / 'k' / 'file_link')
         os.symlink('../a/f', st / 'k' / 'sibling_link')
         os.symlink('../outside/secret', st / 'file_link')
+        sib = 'real_storage2' if layout == 'via-symlink' else 'storage_backup'
+        os.symlink(f'../{sib}/K2', st / 'link_prefix')
+        os.symlink(f'../{sib}', st / 'link_prefix_dir')
     return st
 
 
@@ -227,6 +234,70 @@ def _work(item):
 
 OUT_TOKEN = '<<OUTSIDE_ABS>>'
 
+MUTATIONS = ('key->symlink-outside-dir', 'key->symlink-sibling-key', 'file->symlink-outside-file', 'key->symlink-prefix-sibling')
+
+
+def mutate(st: Path, root: Path, key: str, how: str):
+    """Environment change between two operations of a history."""
+    kp = st / key
+    if how.startswith('key->'):
+        if kp.is_symlink() or kp.is_file():
+            kp.unlink()
+        elif kp.is_dir():
+            shutil.rmtree(kp)
+        target = {'key->symlink-outside-dir': '../outside', 'key->symlink-sibling-key': 'a',
+                  'key->symlink-prefix-sibling': '../storage_backup/K2'}[how]
+        os.symlink(target, kp)
+    else:
+        kp.mkdir(exist_ok=True)
+        fp = kp / 'f'
+        if fp.exists() or fp.is_symlink():
+            fp.unlink()
+        os.symlink('../../outside/secret', fp)
+
+
+def history_ops():
+    firsts = [('exists',), ('delete',), ('file_handle', 'f', 'w'), ('file_handle', 'f', 'r')]
+    seconds = [('exists',), ('delete',)] + [('file_handle', 'f', m) for m in MODES]
+    out = []
+    for key in ('k', 'new'):
+        for f in firsts:
+            for how in MUTATIONS:
+                for s2 in seconds:
+                    out.append((key, f, how, s2))
+    return out
+
+
+def _work_hist(batch):
+    silence_labtech()
+    from labtech.storage import LocalStorage
+    install_hook()
+    base = '/dev/shm' if os.path.isdir('/dev/shm') and os.access('/dev/shm', os.W_OK) else None
+    top = tempfile.mkdtemp(prefix='c18h_', dir=base)
+    res = []
+    try:
+        for i, (key, first, how, second) in enumerate(batch):
+            root = os.path.join(top, f'h{i}')
+            st = build_sandbox(Path(root), 'keys')
+            st_real = os.path.realpath(st)
+            storage = LocalStorage(os.path.join(root, 'storage'), with_gitignore=False)
+            op1 = (first[0], key) + tuple(first[1:])
+            run_case(storage, st_real, root, op1)
+            mutate(Path(st_real), Path(root), key, how)
+            before = snapshot(Path(root))
+            op2 = (second[0], key) + tuple(second[1:])
+            raised, audit = run_case(storage, st_real, root, op2)
+            after = snapshot(Path(root))
+            for k, msg in judge(op2, raised, before, after, audit, st_real, root):
+                if how == 'key->symlink-sibling-key' and k in ('several-keys-touched',):
+                    continue
+                res.append((f'{k}:{op2[0]}:after-environment-change',
+                            f'history {op1!r}; then {how}; then {op2!r} ({"raised " + type(raised).__name__ if raised else "returned"}): {msg}', 50 + i))
+            shutil.rmtree(root, ignore_errors=True)
+        return len(batch), res
+    finally:
+        shutil.rmtree(top, ignore_errors=True)
+
 
 def all_ops(nseg: int):
     strs = strings(nseg, OUT_TOKEN)
@@ -277,13 +348,22 @@ def run(tier: str, seed: int) -> Result:
         accepted += na
         for key, msg, size in res:
             viols.append(Violation('C18', key, msg, {'tier': tier, 'clause': key, 'msg': msg}, size=size))
+    hist = history_ops()
+    n_hist = 0
+    for n, res in pmap(_work_hist, [hist[i:i + 40] for i in range(0, len(hist), 40)]):
+        n_hist += n
+        for key, msg, size in res:
+            viols.append(Violation('C18', key, msg, {'tier': tier, 'clause': key, 'msg': msg}, size=size))
+    total += n_hist
     cov = {
+        'two_step_histories_with_environment_change': n_hist,
         'evaluations': total,
-        'distinct_nontrivial': len(ops) * len(LAYOUTS),
-        'rule': (f'key/filename strings = all sequences of <= {nseg} segments from 18 adversarial segments (empty, dot, dotdot, existing/new keys, '
+        'distinct_nontrivial': len(ops) * len(LAYOUTS) + len(hist),
+        'rule': (f'key/filename strings = all sequences of <= {nseg} segments from 20 adversarial segments (empty, dot, dotdot, existing/new keys, '
                  'space, tilde, symlinks pointing outside / to a sibling key / dangling, symlink inside a key dir to an outside file, absolute outside path, '
                  'NUL, .gitignore, case variant) joined by / or \\; ops exists, delete, file_handle in 8 modes (then read/write+close); 4 layouts; '
-                 'keys x 3 benign filenames and 3 benign keys x filenames; each case on a fresh (or verified-unchanged) sandbox; '
+                 'keys x 3 benign filenames and 3 benign keys x filenames; each case on a fresh (or verified-unchanged) sandbox; plus two-step histories '
+                 '(operation; a key or file is replaced by a symlink to outside / sibling / prefix-sibling; second operation on the same storage object); '
                  'distinct_nontrivial = distinct (layout, operation) cases'),
         'samples': [repr(ops[i]) for i in (0, len(ops) // 3, len(ops) // 2, len(ops) - 1)],
         'operations_that_did_not_raise': accepted,
